@@ -1390,6 +1390,38 @@ func (h *c17Hist) opReward(aligned bool) error {
 				h.finding("C01/reward-without-valid-proof", "a reward block paid an account that never had a valid proof accepted on any file")
 				h.trace = h.trace[:len(h.trace)-1]
 			}
+			// ---- C01 monitor: "stays credited … only by submitting a Merkle proof": whoever is paid is listed on some
+			// file that is still in its first interval, or on one where its record was refreshed (by an accepted proof
+			// or a quorum — the frame and effect monitors above see to that) no earlier than the start of the file's
+			// last closed proof interval.  Computed here from the state before the block, not from the code's helpers.
+			justified := false
+			for _, f := range pre.F1 {
+				iv := f.ProofInterval
+				if iv <= 0 {
+					continue
+				}
+				for _, key := range f.Proofs {
+					pr, _, _, _, kerr := c17ParsePKey(key)
+					acc, aerr := sdk.AccAddressFromBech32(pr)
+					if kerr != nil || aerr != nil || !acc.Equals(a) {
+						continue
+					}
+					if f.Start+iv >= e.Height {
+						justified = true
+					}
+					bound := e.Height - (e.Height-f.Start)%iv - iv
+					for _, rec := range pre.Proofs {
+						if rec.Prover == pr && rec.Owner == f.Owner && rec.Start == f.Start && bytes.Equal(rec.Merkle, f.Merkle) && rec.LastProven >= bound {
+							justified = true
+						}
+					}
+				}
+			}
+			if !justified {
+				h.trace = append(h.trace, map[string]interface{}{"op": "RewardBlock", "height": e.Height, "paid": a.String(), "amount": e.Bal(a, "ujkl") - bal[string(a)]})
+				h.finding("C01/reward-without-proof-in-the-judged-interval", "a reward block paid an account that is listed on no young file and whose every proof record is older than the start of its file's last closed proof interval: it stayed credited without submitting a proof")
+				h.trace = h.trace[:len(h.trace)-1]
+			}
 			h.r.Hist("reward", "paid")
 		} else if e.Bal(a, "ujkl") < bal[string(a)] {
 			h.finding("C01/reward-block-debited", "a reward block lowered an account's balance")
